@@ -171,6 +171,23 @@ def gen_plan(seed, tier):
                         "ns": rng.choice([0, 1, 10**6, 10**9, 3 * 10**9])})
         else:
             ops.append({"k": "read", "name": name})
+    if backend == "files" and rng.random() < 0.12:
+        # what one handle knows about packed-refs goes stale: it looks, the
+        # other handle writes a ref and packs it, the first one acts on it
+        x = rng.choice([A, B, C_, T, RM])
+        seq = [{"k": "read", "name": rng.choice([A, B, C_, T, RM])},
+               {"k": "switch"},
+               {"k": "set", "name": x, "new": fresh()},
+               {"k": "pack", "all": True},
+               {"k": "switch"},
+               rng.choice([{"k": "del", "name": x},
+                           {"k": "rm", "name": x, "old": "cur"},
+                           {"k": "cas", "name": x, "old": "cur",
+                            "new": fresh()},
+                           {"k": "add", "name": x, "new": fresh()},
+                           {"k": "read", "name": x}])]
+        at = rng.randrange(len(ops) + 1)
+        ops[at:at] = seq
     init_packed = {}
     if backend == "files" and rng.random() < 0.5:
         for nm in rng.sample([A, B, T, RM, C_], rng.randint(1, 3)):
